@@ -12,7 +12,7 @@ import (
 // restoreForm returns the name of the leaf method whose bytes restoreKey of the kind hands
 // back to the caller (getKey for every kind today) – the authoritative stored form.
 func (c *Ctx) restoreForm(tk *TreeKind) string {
-	u := tk.Methods["restoreKey"]
+	u := c.m.restoreUnit(tk)
 	if u == nil {
 		return ""
 	}
